@@ -175,7 +175,58 @@ class PathCore:
         for p in prev:
             self.assume(t != p)
         prev.append(t)
+        if self.track_alloc:
+            self.assume(self.born(sort)(t) == self.tick())
         return VRef(sort, t)
+
+    # ---- allocation time (only when the contract under verification asks for it: Contract.track_alloc)
+    # born_S(o) is an immutable attribute of every object; `now` is a strictly increasing ghost clock.
+    # Every reference obtained from the current state (parameter, heap cell, result of a call) was
+    # allocated before now (python has no dangling or future references); a new object is born at now.
+    track_alloc = False
+
+    def born(self, sort: str):
+        return self.world.fn(f"born_{sort}", ref_sort(sort), z3.IntSort())
+
+    def now(self):
+        return self.ghost.setdefault("now", z3.Int("now0"))
+
+    def tick(self):
+        old = self.now()
+        n = self.fresh_const("now", z3.IntSort())
+        self.assume(n > old)
+        self.ghost["now"] = n
+        return old
+
+    def assume_allocated(self, v):
+        if not self.track_alloc or getattr(self, "pure_mode", 0):
+            return
+        if isinstance(v, VRef):
+            self.assume(z3.Or(v.term == null_of(v.sort), self.born(v.sort)(v.term) < self.now()))
+        elif isinstance(v, VOpt):
+            if isinstance(v.val, VRef):
+                self.assume(z3.Or(v.isnone, v.val.term == null_of(v.val.sort), self.born(v.val.sort)(v.val.term) < self.now()))
+        elif isinstance(v, VTuple):
+            for x in v.items:
+                self.assume_allocated(x)
+
+    def assume_closed(self, sort: str, field: str):
+        """no cell of the field holds a reference to an object that does not exist yet"""
+        if not self.track_alloc:
+            return
+        t = self.world.field_type(sort, field)
+        arrs = self.heap[(sort, field)]
+        x = z3.Const("x!cl", ref_sort(sort))
+        inner = t.t if isinstance(t, Opt) else t
+        if isinstance(inner, Ref) and arrs[0].sort().range() == ref_sort(inner.sort):
+            r = z3.Select(arrs[0], x)
+            self.pc.append(z3.ForAll([x], z3.Or(r == null_of(inner.sort), self.born(inner.sort)(r) < self.now()), patterns=[r]))
+        elif isinstance(inner, Seq):
+            e = inner.t.t if isinstance(inner.t, Opt) else inner.t
+            if isinstance(e, Ref) and isinstance(arrs[0].sort().range(), z3.ArraySortRef) and arrs[0].sort().range().range() == ref_sort(e.sort):
+                i = z3.Int("i!cl")
+                r = z3.Select(z3.Select(arrs[0], x), i)
+                self.pc.append(z3.ForAll([x, i], z3.Or(r == null_of(e.sort), self.born(e.sort)(r) < self.now()), patterns=[r]))
 
     def assume(self, f):
         if isinstance(f, bool):
@@ -255,6 +306,13 @@ class PathCore:
         if key not in self.heap:
             t = self.world.field_type(sort, field)
             self.heap[key] = [z3.Const(f"H0.{sort}.{field}" + (f"!{i}" if i else ""), z3.ArraySort(ref_sort(sort), s)) for i, s in enumerate(flat_sorts(t))]
+            if self.track_alloc:
+                # the initial heap is closed with respect to the clock at function entry
+                cur = self.ghost.get("now")
+                self.ghost["now"] = z3.Int("now0")
+                self.assume_closed(sort, field)
+                if cur is not None:
+                    self.ghost["now"] = cur
         return self.heap[key]
 
     def read_field(self, obj: VRef, field: str) -> V:
@@ -262,6 +320,11 @@ class PathCore:
         arrs = self.heap_arrays(obj.sort, field)
         v = unpack(t, [z3.Select(a, obj.term) for a in arrs])
         self.assume_enum_members(v)
+        self.assume_allocated(v)
+        if isinstance(v, VSeq):
+            self.assume(v.length >= 0)   # len() of a python sequence
+        elif isinstance(v, VOpt) and isinstance(v.val, VSeq):
+            self.assume(z3.Or(v.isnone, v.val.length >= 0))
         return v
 
     def assume_enum_members(self, v):
@@ -291,6 +354,7 @@ class PathCore:
         t = self.world.field_type(sort, field)
         nm = self.fresh_name(f"H.{sort}.{field}")
         self.heap[(sort, field)] = [z3.Const(nm + (f"!{i}" if i else ""), z3.ArraySort(ref_sort(sort), s)) for i, s in enumerate(flat_sorts(t))]
+        self.assume_closed(sort, field)
 
     def snapshot_heap(self):
         return {k: list(v) for k, v in self.heap.items()}
